@@ -4,6 +4,7 @@ import (
 	"fmt"
 	"go/ast"
 	"go/token"
+	"go/types"
 	"sort"
 	"strings"
 
@@ -61,14 +62,14 @@ func (e *Env) RSink() {
 		}
 	}
 	okComment := false
-	for _, st := range fd.Body.List {
-		if as, ok := st.(*ast.AssignStmt); ok && as.Tok == token.DEFINE && len(as.Lhs) == 1 && len(as.Rhs) == 1 {
-			if got := c.ExprStr(as.Rhs[0]); got == "&Comment{Slash: slash, Text: text}" {
-				commentObj = info.Defs[as.Lhs[0].(*ast.Ident)]
+	ast.Inspect(fd.Body, func(n ast.Node) bool {
+		if u, ok := n.(*ast.UnaryExpr); ok && u.Op == token.AND {
+			if c.ExprStr(u) == "&Comment{Slash: slash, Text: text}" {
 				okComment = true
 			}
 		}
-	}
+		return true
+	})
 	e.Run.Check("R-SINK", "addCommentField builds the comment from its position and text parameters", e.Prog.Pos(fd.Pos()), okComment, "expected c := &ast.Comment{Slash: slash, Text: text}")
 	adds := map[string]string{}
 	var ts *ast.TypeSwitchStmt
@@ -79,6 +80,10 @@ func (e *Env) RSink() {
 	}
 	if ts == nil {
 		e.Run.Violation("R-SINK", "addCommentField dispatches on the node type", e.Prog.Pos(fd.Pos()), "no type switch")
+		return
+	}
+	if e.sinkFieldPointerForm(c, info, fd, ts, recv, has) {
+		e.applyDecorationsSinks()
 		return
 	}
 	for _, st := range ts.Body.List {
@@ -314,4 +319,180 @@ func (e *Env) applyDecorationsSinks() {
 	e.Run.Check("R-SINK", "applyDecorations: each comment goes to exactly one sink, at the cursor, then the cursor advances by its length", pos, order,
 		"both sinks take the comment at r.cursor; the advance by len(d) must come after them")
 	_, _ = isComment, toField
+}
+
+// sinkFieldPointerForm: addCommentField written as "select the address of the node's Comment field
+// in a type switch, then one shared body": every arm is `p = &n.Comment` (other types return), and
+// the tail creates the group when *p is nil — storing it back through p and registering it once in
+// the file's comment list, both under that nil test — and appends the comment unconditionally.
+// Returns false when the function is not of this form (the per-arm analysis applies).
+func (e *Env) sinkFieldPointerForm(c *schema.Ctx, info *types.Info, fd *ast.FuncDecl, ts *ast.TypeSwitchStmt, recv types.Object, has map[string]bool) bool {
+	var p types.Object
+	arms := map[string]bool{}
+	for _, st := range ts.Body.List {
+		cc := st.(*ast.CaseClause)
+		if cc.List == nil {
+			continue
+		}
+		if len(cc.List) != 1 || len(cc.Body) != 1 {
+			return false
+		}
+		as, ok := cc.Body[0].(*ast.AssignStmt)
+		if !ok || len(as.Lhs) != 1 || len(as.Rhs) != 1 || as.Tok != token.ASSIGN {
+			return false
+		}
+		lid, ok := as.Lhs[0].(*ast.Ident)
+		u, ok2 := as.Rhs[0].(*ast.UnaryExpr)
+		if !ok || !ok2 || u.Op != token.AND {
+			return false
+		}
+		if path, okp := c.Path(u.X, info.Implicits[cc]); !okp || path != "Comment" {
+			return false
+		}
+		if p == nil {
+			p = info.Uses[lid]
+		} else if info.Uses[lid] != p {
+			return false
+		}
+		_, tn := schema.NamedTypeName(info.TypeOf(cc.List[0]))
+		arms[tn] = true
+	}
+	if p == nil {
+		return false
+	}
+	pos := e.Prog.Pos(fd.Pos())
+	// the tail: statements after the switch
+	var tail []ast.Stmt
+	after := false
+	for _, st := range fd.Body.List {
+		if after {
+			tail = append(tail, st)
+		}
+		if st == ast.Stmt(ts) {
+			after = true
+		}
+	}
+	undo := c.InstallReaching(fd)
+	defer undo()
+	// expressions that denote the field: *p, or a local defined as *p (before being re-assigned)
+	isField := func(x ast.Expr) bool {
+		s := c.ExprStr(x)
+		return s == "*"+p.Name()
+	}
+	nAlloc, nBack, nReg, nAppend := 0, 0, 0, 0
+	guardedAll, appendUnconditional := true, true
+	var groupObj types.Object
+	for _, st := range tail {
+		ast.Inspect(st, func(n ast.Node) bool {
+			as, ok := n.(*ast.AssignStmt)
+			if !ok || len(as.Lhs) != len(as.Rhs) {
+				return true
+			}
+			cond, _ := pathCond(c, tail, as)
+			underNil := false
+			for _, cj := range splitTop(cond, " && ") {
+				cj = strings.TrimSpace(cj)
+				if cj == "*"+p.Name()+" == nil" || (groupObj != nil && cj == groupObj.Name()+" == nil") {
+					underNil = true
+				}
+			}
+			for i, l := range as.Lhs {
+				r := as.Rhs[i]
+				// group := *p
+				if id, ok := l.(*ast.Ident); ok && as.Tok == token.DEFINE {
+					if st, ok := ast.Unparen(r).(*ast.StarExpr); ok {
+						if sid, ok := st.X.(*ast.Ident); ok && info.Uses[sid] == p {
+							groupObj = info.Defs[id]
+						}
+					}
+					continue
+				}
+				lhsIsGroup := func() bool {
+					if id, ok := l.(*ast.Ident); ok && groupObj != nil && info.Uses[id] == groupObj {
+						return true
+					}
+					return false
+				}()
+				lhsIsField := func() bool {
+					if st, ok := l.(*ast.StarExpr); ok {
+						if sid, ok := st.X.(*ast.Ident); ok && info.Uses[sid] == p {
+							return true
+						}
+					}
+					return false
+				}()
+				if _, isAlloc := allocLit(r); isAlloc && (lhsIsGroup || lhsIsField) {
+					nAlloc++
+					if lhsIsField {
+						nBack++
+					}
+					if !underNil {
+						guardedAll = false
+					}
+					continue
+				}
+				if lhsIsField {
+					if id, ok := ast.Unparen(r).(*ast.Ident); ok && groupObj != nil && info.Uses[id] == groupObj {
+						nBack++
+						if !underNil {
+							guardedAll = false
+						}
+					}
+					continue
+				}
+				if pth, okp := c.Path(l, recv); okp && pth == "comments" {
+					if cl, ok := r.(*ast.CallExpr); ok && c.ExprStr(cl.Fun) == "append" && len(cl.Args) == 2 {
+						arg := cl.Args[1]
+						argIsGroup := isField(arg)
+						if id, ok := ast.Unparen(arg).(*ast.Ident); ok && groupObj != nil && info.Uses[id] == groupObj {
+							argIsGroup = true
+						}
+						if argIsGroup {
+							nReg++
+							if !underNil {
+								guardedAll = false
+							}
+						}
+					}
+					continue
+				}
+				// <group>.List = append(<group>.List, …)
+				if se, ok := l.(*ast.SelectorExpr); ok && se.Sel.Name == "List" {
+					base := false
+					if id, ok := se.X.(*ast.Ident); ok && groupObj != nil && info.Uses[id] == groupObj {
+						base = true
+					}
+					if pe, ok := se.X.(*ast.ParenExpr); ok && isField(pe.X) {
+						base = true
+					}
+					if base {
+						nAppend++
+						if cond != "" && cond != "true" {
+							appendUnconditional = false
+						}
+					}
+				}
+			}
+			return true
+		})
+	}
+	var hs, as []string
+	for k := range has {
+		hs = append(hs, k)
+	}
+	for k := range arms {
+		as = append(as, k)
+	}
+	sort.Strings(hs)
+	sort.Strings(as)
+	e.Run.Check("R-SINK", "hasCommentField and addCommentField agree on the sink types", pos, strings.Join(hs, ",") == strings.Join(as, ",") && len(hs) > 0,
+		fmt.Sprintf("hasCommentField: %v; addCommentField: %v — a type only in the first routes End comments to a sink that drops them", hs, as))
+	e.Run.Check("R-SINK", "addCommentField: group registered in the file's comment list exactly once, when created", pos,
+		nAlloc == 1 && nBack >= 1 && nReg == 1 && guardedAll,
+		fmt.Sprintf("shared body after the field selection: allocations %d, stored back through the field pointer %d, registrations %d, all under the nil test %v — the group must be created, stored in the node's Comment field and appended to r.comments once, only when the field was nil", nAlloc, nBack, nReg, guardedAll))
+	e.Run.Check("R-SINK", "addCommentField: comment appended to the group exactly once, unconditionally", pos, nAppend == 1 && appendUnconditional,
+		fmt.Sprintf("%d appends to the group's List (unconditional: %v)", nAppend, appendUnconditional))
+	e.Run.Analysed("comment sink branches", len(as))
+	e.Run.Floor("R-SINK", "sink branches", len(as), 3)
+	return true
 }
